@@ -69,7 +69,7 @@ structure Dev (σ : Type) where
   ctl : σ → CtlReq → σ × Option UsbErr
 
 /-- One interaction with the outside world.  `timeoutMs` is the timeout handed to the
-transport call (`config.timeout_duration`; 0 for requests that take none). -/
+transport call (`transfer_timeout()` = `Config.xfer`; 0 for requests that take none). -/
 inductive Ev where
   | send (bytes : Bytes) (timeoutMs : Nat) (err : Option UsbErr)
   | recv (bufLen : Nat) (timeoutMs : Nat) (res : Except UsbErr Bytes)
@@ -89,6 +89,10 @@ structure Config where
   /-- `maximum_ack_length : u32` -/
   maxAck : Nat
   deriving Repr, DecidableEq
+
+/-- `transfer_timeout()`: the timeout handed to every transfer, never below 1 ms (a zero
+timeout means "wait forever" to libusb). -/
+def Config.xfer (c : Config) : Nat := max c.timeoutMs 1
 
 /-- `ConnectionConfig::default()` -/
 def Config.default : Config := ⟨500, 3, 128, 128⟩
@@ -142,7 +146,7 @@ def recvLoop {σ α} (dev : Dev σ) (p : Profile) (scdAs : Ack.AckPacket → Ack
   | 0, s => (s, .err .io)          -- "… exceeds the retry_count"
   | retry + 1, s =>
     let (d, res) := dev.recv s.d s.h.bufLen
-    let s := ({ s with d := d } : St σ).push (.recv s.h.bufLen s.h.cfg.timeoutMs res)
+    let s := ({ s with d := d } : St σ).push (.recv s.h.bufLen s.h.cfg.xfer res)
     match res with
     | .error e => (s, .err (.ofUsb e))
     | .ok bytes =>
@@ -194,7 +198,7 @@ def sendCmd {σ α} (dev : Dev σ) (p : Profile) (scdAs : Ack.AckPacket → Ack.
     -- (always so for the commands `read`/`write` build: theorem); otherwise: artefact branch.
     if out.length ≠ cmdLen then (s, .panic) else
     let (d, r) := dev.send s.d out
-    let s := ({ s with d := d } : St σ).push (.send out s.h.cfg.timeoutMs r)
+    let s := ({ s with d := d } : St σ).push (.send out s.h.cfg.xfer r)
     match r with
     | some e => (s, .err (.ofUsb e))
     | none => recvLoop dev p scdAs (ackKindOf c) id s.h.cfg.retry s
@@ -383,8 +387,8 @@ def initializeConfig {σ} (dev : Dev σ) (p : Profile) (s : St σ) : Out σ Unit
 
 /-- only SET_FEATURE(ENDPOINT_HALT) (`set_halt`) takes a timeout -/
 def ctlTimeout (cfg : Config) : CtlReq → Nat
-  | .setHaltIn => cfg.timeoutMs
-  | .setHaltOut => cfg.timeoutMs
+  | .setHaltIn => cfg.xfer
+  | .setHaltOut => cfg.xfer
   | _ => 0
 
 def ctlReq {σ} (dev : Dev σ) (s : St σ) (r : CtlReq) : Out σ Unit :=
